@@ -17,6 +17,7 @@ from .cfg import CFG
 from .core import Unsupported
 
 Facts = FrozenSet[Aff]
+NONNEG_CALLS = {"_extract_bits", "len"}      # opaque calls whose result is a non-negative integer (roles.bits_fn adds the current name)
 
 
 def _atom_mentions(atom: str, name: str) -> bool:
@@ -37,7 +38,7 @@ def background(atoms: Iterable[str]) -> List[Aff]:
             out.append(Aff.k(7) - Aff.atom(a))
         elif a.startswith("pow2("):
             out.append(Aff.atom(a) - Aff.k(1))
-        elif a.startswith("call:_extract_bits(") or a.startswith("call:len("):
+        elif a.startswith("call:") and a[5:].split("(", 1)[0] in NONNEG_CALLS:
             out.append(Aff.atom(a))
     return out
 
@@ -102,6 +103,10 @@ class FactFlow:
 
     def transfer_stmt(self, node, facts: Set[Aff]) -> Set[Aff]:
         st = node.ast
+        if st is not None and node.kind in ("test", "stmt"):
+            for n in ast.walk(st):
+                if isinstance(n, ast.NamedExpr):          # walrus inside a test / expression re-binds its target
+                    facts = self._kill(facts, n.target.id)
         if node.kind in ("entry", "exit", "raise", "test"):
             return facts
         if node.kind == "handler":
@@ -111,6 +116,13 @@ class FactFlow:
                 d = dotted(t)
                 if d:
                     facts = self._kill(facts, d)
+            return facts
+        if node.kind == "case":
+            for n in ast.walk(st):
+                if isinstance(n, (ast.MatchAs, ast.MatchStar)) and n.name:
+                    facts = self._kill(facts, n.name)
+                elif isinstance(n, ast.NamedExpr):
+                    facts = self._kill(facts, n.target.id)
             return facts
         if node.kind == "with":
             for it in st.items:
